@@ -111,6 +111,7 @@ var st struct {
 	mainPipe  pipe
 	pipesOK   bool
 	aborted   bool
+	seq       bool
 }
 
 var hits [MaxSites]uint32
@@ -216,6 +217,7 @@ func begin(cfg Config, n int) {
 	st.noPreempt = 0
 	st.stuck = 0
 	st.aborted = false
+	st.seq = false
 	st.res = Result{PerTask: make([]uint64, n)}
 	for i := 0; i < MaxTasks; i++ {
 		st.done[i] = false
@@ -294,7 +296,7 @@ func Yield(site uint32) {
 	st.yields[t] = k + 1
 	st.total++
 	st.stuck = 0
-	if st.ntasks < 2 {
+	if st.ntasks < 2 || st.seq {
 		if st.cfg.MaxYields != 0 && st.total > st.cfg.MaxYields {
 			st.res.Budget = true
 		}
@@ -393,7 +395,7 @@ func taskEnd(t int) {
 //go:norace
 //go:noinline
 func blockedYield() bool {
-	if !st.active || st.ntasks < 2 {
+	if !st.active || st.ntasks < 2 || st.seq {
 		return false
 	}
 	t := st.cur
@@ -550,6 +552,36 @@ func Run(cfg Config, tasks []func()) Result {
 	}
 	return finish()
 }
+
+// RunSeq executes the tasks one after the other on the calling goroutine
+// ("sequential use"), with the simulation active so that yields are counted and
+// the map order seen by task t is the same function of (MapSeed, t, n-th range)
+// as in a concurrent Run with the same Config.
+func RunSeq(cfg Config, tasks []func()) Result {
+	n := len(tasks)
+	if n == 0 {
+		return Result{}
+	}
+	if n > MaxTasks {
+		panic("simrt: too many tasks")
+	}
+	begin(cfg, n)
+	setSeq(true)
+	for t := range tasks {
+		setCur(t)
+		setActive(true)
+		func() {
+			defer setActive(false)
+			tasks[t]()
+		}()
+	}
+	setSeq(false)
+	return finish()
+}
+
+//go:norace
+//go:noinline
+func setSeq(b bool) { st.seq = b }
 
 //go:norace
 //go:noinline
